@@ -1,8 +1,9 @@
 """C13 — SVM SMO solver: the bookkeeping that shrinking relies on."""
 import re
 
+from . import layout
 from .core import RuleResult
-from .facts import fn_key, fn_loc, walk, strip, peel_refs, pat_bindings, Render, children
+from .facts import fn_file, fn_key, fn_loc, walk, strip, peel_refs, pat_bindings, Render, children
 
 LEVEL = ("Static analysis of linfa-svm's SolverState: (swap) every per-variable container that any method indexes by a variable "
          "position is permuted by swap(i, j); (bound) no counted loop over positions reads its upper bound once from a field that "
@@ -651,5 +652,101 @@ def rule_rescale(ctx):
     return res.finish(1)
 
 
+rule_memorder = layout.make_rule("R-C13-memorder", "raw memory-order buffers (as_slice_memory_order, into_raw_vec, as_ptr) of records, targets and kernel matrices are used by position only behind an is_standard_layout() test", lambda f: f["d"]["krate"] in ("linfa_svm", "linfa_kernel"), "linfa-svm and linfa-kernel")
+
+def rule_extent(ctx):
+    """G_bar (gradient_fixed) is the contribution of the variables at their upper bound to the gradient of *every*
+    variable, shrunk ones included: reconstruct_gradient rebuilds the gradient of the shrunk variables from it.  When a
+    variable enters or leaves its bound in update(), the maintenance therefore ranges over all positions 0..ntotal();
+    ranging over the active ones (a loop to nactive(), or a zip with a kernel column fetched for nactive() entries, which
+    silently truncates) leaves the entries of the shrunk variables stale."""
+    res = RuleResult("R-C13-extent", "the maintenance of gradient_fixed in update() covers all ntotal() positions (loop bound, and length of every zipped kernel column)")
+    F = ctx.facts()
+    fns = {f["d"]["name"]: f for f in solver_fns(F)}
+    fn = fns.get("update")
+    if fn is None:
+        res.missing_anchor("SolverState::update")
+        return res.finish(2)
+    key = fn_key(fn)
+    r = Render(fn["crate"])
+    inits = {}
+    for n in walk(fn["body"]):
+        if n.get("k") == "LetStmt" and n.get("init") is not None and n["pat"].get("k") == "Bind":
+            inits[n["pat"]["local"]] = n["init"]
+
+    def count_name(e, depth=0):
+        """'ntotal' / 'nactive' / None for an extent expression"""
+        e = peel_refs(e)
+        if e.get("k") == "MethodCall" and e["name"] in ("ntotal", "nactive") and self_field(e) is None:
+            return e["name"]
+        if e.get("k") == "Field" and self_field(e) in ("nactive",):
+            return "nactive"
+        if e.get("k") == "MethodCall" and e["name"] == "len" and self_field(e["recv"]) in ("alpha", "gradient_fixed", "gradient", "p", "bounds", "targets"):
+            return "ntotal"
+        if e.get("k") == "Path" and e.get("local") in inits and depth < 3:
+            return count_name(inits[e["local"]], depth + 1)
+        return None
+
+    def extent_of(e, depth=0):
+        """set of extent names an iterator expression is limited by (the shortest wins)"""
+        e = strip(e)
+        k = e.get("k")
+        if k == "Ref" or (k == "Unary" and e["op"] == "*"):
+            return extent_of(e["e"], depth)
+        if k == "Call" and len(e["args"]) == 1:
+            return extent_of(e["args"][0], depth)
+        if k == "Struct" and (fn["crate"].dfn(e.get("def")) or {}).get("path", "").endswith("Range"):
+            fs = {x["name"]: x["e"] for x in e["fields"]}
+            cn = count_name(fs.get("end")) if fs.get("end") is not None else None
+            return {cn or "?"}
+        if k == "MethodCall":
+            nm = e["name"]
+            if nm == "zip" and len(e["args"]) == 1:
+                return extent_of(e["recv"], depth) | extent_of(e["args"][0], depth)
+            if nm == "take" and len(e["args"]) == 1:
+                return extent_of(e["recv"], depth) | {count_name(e["args"][0]) or "?"}
+            if nm in ("iter", "iter_mut", "into_iter", "enumerate", "rev", "copied", "cloned", "by_ref"):
+                return extent_of(e["recv"], depth)
+            if nm == "distances" and len(e["args"]) == 2:
+                return {count_name(e["args"][1]) or "?"}
+            return {"?"}
+        if k == "Field" and self_field(e) in ("gradient_fixed", "alpha", "gradient", "p", "bounds"):
+            return {"ntotal"}
+        if k == "Path" and e.get("local") in inits and depth < 3:
+            return extent_of(inits[e["local"]], depth + 1)
+        return {"?"}
+    n_sites = 0
+    for m in walk(fn["body"]):
+        if m.get("k") != "Match" or m.get("src") != "ForLoopDesugar" or len(m["arms"]) != 1:
+            continue
+        loop = None
+        for x in walk(m["arms"][0]["body"]):
+            if x.get("k") == "Loop":
+                loop = x
+                break
+        if loop is None:
+            continue
+        # innermost loops only: a loop whose body writes gradient_fixed (indexed or through an element of its iter_mut)
+        if any(y.get("k") == "Loop" for y in walk(loop["body"])):
+            continue
+        writes_gf = any(x.get("k") in ("Assign", "AssignOp") and any(self_field(y) == "gradient_fixed" for y in walk(x["l"])) for x in walk(loop["body"]))
+        iter_gf = any(self_field(y) == "gradient_fixed" for y in walk(m["scrut"]))
+        writes_elem = iter_gf and any(x.get("k") in ("Assign", "AssignOp") for x in walk(loop["body"]))
+        if not (writes_gf or writes_elem):
+            continue
+        n_sites += 1
+        ext = extent_of(m["scrut"])
+        res.instance("%s : gradient_fixed maintenance loop #%d ranges over %s" % (key, n_sites, sorted(ext)))
+        if "nactive" in ext:
+            res.violate("%s : maintenance-over-active-set" % key, "the loop `%s` that maintains gradient_fixed is limited by nactive() (loop bound, take(..), or the length of a zipped kernel column fetched with distances(_, nactive())): the entries of the shrunk variables stay stale and reconstruct_gradient rebuilds their gradient from them" % r.e(m["scrut"])[:100], fn_loc(fn, m["ln"]))
+        elif ext == {"ntotal"}:
+            res.ok()
+        else:
+            res.undecided("%s : maintenance-extent" % key, "extent of the gradient_fixed maintenance loop `%s` not classified" % r.e(m["scrut"])[:100], fn_loc(fn, m["ln"]))
+    if n_sites == 0:
+        res.undecided("%s : maintenance-not-found" % key, "no loop maintaining gradient_fixed found in update()", fn_loc(fn))
+    return res.finish(2)
+
+
 def rules(tier):
-    return [rule_swap, rule_bound, rule_space, rule_sv, rule_sib, rule_snapshot, rule_rho, rule_rescale]
+    return [rule_swap, rule_bound, rule_space, rule_sv, rule_sib, rule_snapshot, rule_rho, rule_rescale, rule_memorder, rule_extent]
